@@ -20,7 +20,7 @@
 
     Results: [Ok v] = the C++ returns true / produces v; [Fail] = the C++ returns false;
     [UB] = the C++ would execute undefined behaviour (float -> int32 conversion out of range,
-    shift count out of range, out-of-bounds read, empty attribute (D12)).  The theorems exclude [UB]
+    shift count out of range, out-of-bounds read).  The theorems exclude [UB]
     by their hypotheses or prove it unreachable.
 
     No proofs in this file. *)
@@ -124,11 +124,12 @@ Fixpoint range_of (range : f32) (mins maxs : list f32) : res f32 :=
 (** ComputeParameters(attribute, quantization_bits) on a fresh transform (quantization_bits_ == -1).
     [rows] = the attribute's values in AttributeValueIndex order.  Value 0 initialises min and max
     (it is not NaN-tested in the loop: a NaN there survives every comparison and is rejected by the
-    final loop).  An attribute without values makes GetValue(0) read out of bounds (D12). *)
+    final loop).  An attribute without values is rejected (`if (attribute.size() == 0) return false;`,
+    the fix of D12). *)
 Definition compute_parameters (rows : list (list f32)) (q : Z) : res qparams :=
   if quantization_valid q then
     match rows with
-    | [] => UB
+    | [] => Fail
     | r0 :: rest =>
         rdo (mins, maxs) <- scan_rows r0 r0 rest;
         rdo range <- range_of f_zero mins maxs;
